@@ -1,5 +1,5 @@
 (* C15 — property theorems only: each closed by [exact], each followed by Print Assumptions. *)
-From Dastard Require Import Common.ZX C15.Model C15.Spec C15.Proofs.
+From Dastard Require Import Common.ZX C15.Model C15.Spec C15.Proofs C15.RoundTrip C15.Run C15.BuildCheck C15.Refuted.
 
 (* For EVERY byte string: ReadPacket (model) never panics and never runs out of fuel; it takes no more bytes
    than it was given and no more than the header declares (the fixed 16-byte header is always read, hence
@@ -32,3 +32,67 @@ Theorem decode_passes_checker : forall bs reads pret, bytes_ok bs ->
   decode_check bs (observe_decode bs reads pret) = true.
 Proof. exact decode_passes_checker_model. Qed.
 Print Assumptions decode_passes_checker.
+
+(* For EVERY sequence of constructor calls (NewPacket, then any mix of SetTimestamp, ResetTimestamp,
+   ClearData, NewData with arguments of the Go types: [op_ok]) in which every call returned nil: Bytes()
+   succeeds and decoding its output consumes exactly all of it and reproduces version, source id,
+   sequence number, channel offset (as a uint32), shape, payload samples (same type and values; a packet
+   built from an empty slice carries no payload bytes, so both sides hold zero samples) and the
+   timestamp counter.  [num], [denom] are the two words Bytes() derives from the float rate: any values.
+   The size limits are those NewData itself enforces (1..99 positive dimensions with product <= 65535,
+   packet <= 8192 bytes): a call outside them returns an error and is outside the hypothesis. *)
+Theorem encode_decode : forall v src seq off ops num denom r rets,
+  0 <= src < 4294967296 -> 0 <= seq < 4294967296 -> Forall op_ok ops ->
+  build (new_packet v src seq off) ops = (r, rets) -> Forall (fun x => x = BRNil) rets ->
+  exists p bs p', r = Ok p /\ bytes_of num denom p = Ok bs /\ read_packet bs = (DOk p', zlen bs) /\
+    version p' = v /\ sourceID p' = src /\ sequenceNumber p' = sequenceNumber p /\
+    offset p' = wrap32 off /\ shape p' = shape p /\
+    (data_count (pdat p) = 0 -> data_count (pdat p') = 0) /\
+    (data_count (pdat p) <> 0 -> pdat p' = pdat p) /\
+    timestamp_T p' = timestamp_T p.
+Proof. exact encode_decode_model. Qed.
+Print Assumptions encode_decode.
+
+(* what the built packet of the usual call sequence holds, in terms of the arguments *)
+Theorem encode_decode_fields : forall v src seq off t rid d dims p,
+  build (new_packet v src seq off) [BSetTs t rid; BNewData d dims] = (Ok p, [BRNil; BRNil]) ->
+  shape p = Some dims /\ pdat p = d /\ sequenceNumber p = wrap32 (seq + 1) /\ timestamp_T p = Some t.
+Proof. exact build_ts_newdata_fields. Qed.
+Print Assumptions encode_decode_fields.
+
+(* the constructors never panic, whatever they are given *)
+Theorem constructors_never_panic : forall ops p,
+  fst (build p ops) <> Panic /\ ~ In BRPanic (snd (build p ops)).
+Proof. exact build_never_panics. Qed.
+Print Assumptions constructors_never_panic.
+
+(* the model's view of ANY construction passes the observable round-trip checker *)
+Theorem build_passes_checker : forall v src seq off ops num denom reads pret dreads dpret,
+  0 <= v < 256 -> 0 <= src < 4294967296 -> 0 <= seq < 4294967296 -> Forall op_ok ops ->
+  let '(b, rets) := model_build v src seq off ops num denom reads pret dreads dpret in
+  build_check rets b = true.
+Proof. exact build_passes_checker_model. Qed.
+Print Assumptions build_passes_checker.
+
+(* The code as it was before the fixes: five datagrams that decode without error and then make an
+   accessor panic (nil format, nil shape, word length 0, mixed format, channel count wrapped to 0). *)
+Theorem decode_total_safe_refuted_pre_fix :
+  after_decode_old w_shape_no_format (fun p => is_panic (frames_old p)) = true /\
+  after_decode_old w_bare_header (fun p => is_panic (channel_info_old p)) = true /\
+  after_decode_old w_no_letter (fun p => is_panic (frames_old p)) = true /\
+  after_decode_old w_mixed_format (fun p => is_panic (read_value_old p 0)) = true /\
+  after_decode_old w_shape_overflow (fun p => is_panic (frames_old p)) = true.
+Proof. exact decode_total_safe_refuted_before_fix. Qed.
+Print Assumptions decode_total_safe_refuted_pre_fix.
+
+(* The old NewData: built packets the decoder rejects (no / zero dimensions), panicked on two dimensions,
+   wrapped a 65536-byte payload length to 0 without an error. *)
+Theorem encode_decode_refuted_pre_fix :
+  (exists p, new_data_old np six [] = Ok (p, false)) /\ old_roundtrip_ok six [] = false /\
+  (exists p, new_data_old np six [0] = Ok (p, false)) /\ old_roundtrip_ok six [0] = false /\
+  new_data_old np six [2; 3] = Panic /\
+  (exists p, new_data_old np (D64 (repeat 5 (Z.to_nat 8192))) [4] = Ok (p, false) /\ payloadLength p = 0) /\
+  old_roundtrip_ok (D64 (repeat 5 (Z.to_nat 8192))) [4] = false /\
+  old_roundtrip_ok six [2] = true.
+Proof. exact encode_decode_refuted_before_fix. Qed.
+Print Assumptions encode_decode_refuted_pre_fix.
